@@ -182,17 +182,30 @@ class Guard:
 def run(ctx):
     """never let a malformed implementation output crash the harness: it is reported as an oracle failure with the last call"""
     guard = {}
-    try:
-        _run(ctx, guard)
-    except BadOutput:
-        pass
-    except Exception as e:
-        g = guard.get("Q")
-        import traceback as _tb
-        if g is not None and g.last is not None:
-            ctx.fail("harness_exception_after_call", "the oracle could not process the output of this call: %r (%s)" % (e, _tb.format_exc().strip().splitlines()[-3].strip()[:120]), g.last)
-        else:
-            raise
+    import random as _random
+    for attempt in range(3):
+        if attempt:      # start over after an I/O error of the shared numba cache (infrastructure, not the implementation)
+            ctx.rng = _random.Random(ctx.seed * 1000003 + int(ctx.prop[1:]))
+            ctx.evaluations, ctx.nontrivial, ctx.samples, ctx.dist, ctx.corr, ctx.coq_cases_total = 0, set(), [], {}, {}, 0
+            ctx.failures, ctx.mismatches, ctx.known_hits, ctx.obligations = [], [], [], []
+            ctx.notes.append('restarted after an I/O error of the shared numba cache')
+        try:
+            _run(ctx, guard)
+            break
+        except OSError:
+            if attempt == 2:
+                raise
+            continue
+        except BadOutput:
+            pass
+        except Exception as e:
+            g = guard.get("Q")
+            import traceback as _tb
+            if g is not None and g.last is not None:
+                ctx.fail("harness_exception_after_call", "the oracle could not process the output of this call: %r (%s)" % (e, _tb.format_exc().strip().splitlines()[-3].strip()[:120]), g.last)
+            else:
+                raise
+        break
 
 
 def _run(ctx, guard):
